@@ -1,4 +1,407 @@
-import OFCore.Group
+import OFCore.Lemmas.Group
+/-!
+# C10 — group aggregations and projections equal their per-group definitions
+
+Theorems about the model `OFCore/Group.lean`, for every population size, every membership map
+(any storage order, groups without member anywhere — the last ones included), every role
+assignment and every value array; no bound on sizes.
+
+Vocabulary: `valuesOf p role g a` is the list of the values of `a` carried by exactly the
+members of group `g` (holding `role`, if given), in storage order — a `filter` on the membership
+list zipped with the array.  Well-formedness: `a.length = p.ms.length` (one value per person),
+`∀ m ∈ p.ms, m.group < p.n` (every person belongs to a group of the simulation) and, for the
+operations that go through `members_position`, `p.ms ≠ []` (`numpy.max` of an empty array raises).
+-/
 namespace OFCore
-theorem C10_placeholder : True := trivial
+open OFCore.Grp
+
+theorem range_map_spec {β} (n : Nat) (F : Nat → β) :
+    ((List.range n).map F).length = n ∧ ∀ g, g < n → ((List.range n).map F)[g]? = some (F g) := by
+  refine ⟨by simp, fun g hg => ?_⟩
+  rw [List.getElem?_map, List.getElem?_range hg]; rfl
+
+/-! Concrete population used by the non-vacuity examples: five persons stored interleaved in
+groups 0 and 2 of a simulation with four groups (groups 1 and 3 — the last — have no member);
+roles: parent = {first_parent 0, second_parent 1} (max 2), child 2, ref 3 (max 1). -/
+def exPop : Pop := ⟨4, [⟨0, 0⟩, ⟨2, 2⟩, ⟨0, 3⟩, ⟨2, 2⟩, ⟨0, 1⟩]⟩
+def exVals : List Int := [3, -1, 4, 1, -5]
+def exBools : List Bool := [true, false, true, true, false]
+def exParent : Role := ⟨1000000, [0, 1], some 2⟩
+def exChild : Role := ⟨2, [], none⟩
+def exRef : Role := ⟨3, [], some 1⟩
+
+theorem exPop_wf : exVals.length = exPop.ms.length ∧ exBools.length = exPop.ms.length ∧
+    (∀ m ∈ exPop.ms, m.group < exPop.n) ∧ exPop.ms ≠ [] := by decide
+
+/-! ## sum -/
+
+theorem C10_sum_def (p : Pop) (a : List Int) (role : Option Role) (hlen : a.length = p.ms.length)
+    (hg : ∀ m ∈ p.ms, m.group < p.n) :
+    ∃ r, groupSum p a role = .ok r ∧ r.length = p.n ∧
+      ∀ g, g < p.n → r[g]? = some (valuesOf p role g a).sum := by
+  have h := range_map_spec p.n (fun g => (valuesOf p role g a).sum)
+  exact ⟨_, groupSum_eq p a role hlen hg, h.1, h.2⟩
+
+example : groupSum exPop exVals none = .ok [2, 0, 0, 0] ∧
+    groupSum exPop exVals (some exParent) = .ok [-2, 0, 0, 0] ∧
+    valuesOf exPop (some exChild) 2 exVals = [-1, 1] := ⟨rfl, rfl, rfl⟩
+
+/-! ## member count -/
+
+theorem C10_count_def (p : Pop) (role : Option Role) (hg : ∀ m ∈ p.ms, m.group < p.n) :
+    ∃ r, nbPersons p role = .ok r ∧ r.length = p.n ∧
+      ∀ g, g < p.n →
+        r[g]? = some ((p.ms.filter fun m => m.group == g && roleOk role m).length : Int) := by
+  have h := range_map_spec p.n
+    (fun g => ((p.ms.filter fun m => m.group == g && roleOk role m).length : Int))
+  refine ⟨_, ?_, h.1, h.2⟩
+  cases role with
+  | none =>
+    unfold nbPersons
+    simp only
+    rw [bincount_eq _ _ (ids_lt_of_ms p hg)]
+    congr 1
+    apply List.map_congr_left
+    intro g _
+    simp [Pop.ids, List.count_eq_length_filter, List.filter_map, roleOk, Function.comp_def]
+  | some r =>
+    unfold nbPersons
+    simp only
+    rw [groupSum_eq p _ none (by simp [Pop.hasRole]) hg]
+    congr 1
+    apply List.map_congr_left
+    intro g _
+    rw [valuesOf_map, Pop.hasRole, valuesOf_ms_map, sum_map_b2i, List.count_eq_length_filter,
+      List.filter_map, List.length_map, List.filter_filter]
+    congr 2
+    apply List.filter_congr
+    intro m _
+    simp [roleOk, Bool.and_comm]
+
+example : nbPersons exPop none = .ok [3, 0, 2, 0] ∧ nbPersons exPop (some exParent) = .ok [2, 0, 0, 0] :=
+  ⟨rfl, rfl⟩
+
+/-! ## any / all -/
+
+theorem C10_any_def (p : Pop) (b : List Bool) (role : Option Role) (hlen : b.length = p.ms.length)
+    (hg : ∀ m ∈ p.ms, m.group < p.n) :
+    ∃ r, groupAny p b role = .ok r ∧ r.length = p.n ∧
+      ∀ g, g < p.n → r[g]? = some ((valuesOf p role g b).any id) := by
+  have h := range_map_spec p.n (fun g => (valuesOf p role g b).any id)
+  exact ⟨_, groupAny_eq p b role hlen hg, h.1, h.2⟩
+
+example : groupAny exPop exBools none = .ok [true, false, true, false] := rfl
+
+theorem C10_all_def (p : Pop) (b : List Bool) (role : Option Role) (hlen : b.length = p.ms.length)
+    (hne : p.ms ≠ []) (hg : ∀ m ∈ p.ms, m.group < p.n) :
+    ∃ r, groupAll p b role = .ok r ∧ r.length = p.n ∧
+      ∀ g, g < p.n → r[g]? = some ((valuesOf p role g b).all id) := by
+  have h := range_map_spec p.n (fun g => (valuesOf p role g b).all id)
+  exact ⟨_, groupAll_eq p b role hlen hne hg, h.1, h.2⟩
+
+example : groupAll exPop exBools none = .ok [false, true, false, true] ∧
+    groupAll exPop exBools (some exChild) = .ok [true, true, false, true] := ⟨rfl, rfl⟩
+
+/-! ## min / max: least / greatest value of the members, `+inf` / `-inf` when the group has no
+member holding the role -/
+
+theorem C10_min_def (p : Pop) (a : List Int) (role : Option Role) (hlen : a.length = p.ms.length)
+    (hne : p.ms ≠ []) (hg : ∀ m ∈ p.ms, m.group < p.n) :
+    ∃ r, groupMin p a role = .ok r ∧ r.length = p.n ∧
+      ∀ g, g < p.n →
+        r[g]? = some (((valuesOf p role g a).map EInt.fin).foldl EInt.min .posInf) ∧
+        (valuesOf p role g a = [] → r[g]? = some .posInf) ∧
+        (valuesOf p role g a ≠ [] →
+          ∃ m ∈ valuesOf p role g a, r[g]? = some (.fin m) ∧ ∀ x ∈ valuesOf p role g a, m ≤ x) := by
+  have h := range_map_spec p.n
+    (fun g => ((valuesOf p role g a).map EInt.fin).foldl EInt.min .posInf)
+  refine ⟨_, groupMin_eq p a role hlen hne hg, h.1, fun g hgn => ?_⟩
+  have hs := foldl_min_spec (valuesOf p role g a)
+  refine ⟨h.2 g hgn, fun he => ?_, fun hn => ?_⟩
+  · rw [h.2 g hgn, hs.1 he]
+  · obtain ⟨m, hm, h1, h2⟩ := hs.2 hn
+    exact ⟨m, hm, by rw [h.2 g hgn, h1], h2⟩
+
+example : groupMin exPop exVals none = .ok [.fin (-5), .posInf, .fin (-1), .posInf] := rfl
+
+theorem C10_max_def (p : Pop) (a : List Int) (role : Option Role) (hlen : a.length = p.ms.length)
+    (hne : p.ms ≠ []) (hg : ∀ m ∈ p.ms, m.group < p.n) :
+    ∃ r, groupMax p a role = .ok r ∧ r.length = p.n ∧
+      ∀ g, g < p.n →
+        r[g]? = some (((valuesOf p role g a).map EInt.fin).foldl EInt.max .negInf) ∧
+        (valuesOf p role g a = [] → r[g]? = some .negInf) ∧
+        (valuesOf p role g a ≠ [] →
+          ∃ m ∈ valuesOf p role g a, r[g]? = some (.fin m) ∧ ∀ x ∈ valuesOf p role g a, x ≤ m) := by
+  have h := range_map_spec p.n
+    (fun g => ((valuesOf p role g a).map EInt.fin).foldl EInt.max .negInf)
+  refine ⟨_, groupMax_eq p a role hlen hne hg, h.1, fun g hgn => ?_⟩
+  have hs := foldl_max_spec (valuesOf p role g a)
+  refine ⟨h.2 g hgn, fun he => ?_, fun hn => ?_⟩
+  · rw [h.2 g hgn, hs.1 he]
+  · obtain ⟨m, hm, h1, h2⟩ := hs.2 hn
+    exact ⟨m, hm, by rw [h.2 g hgn, h1], h2⟩
+
+example : groupMax exPop exVals (some exChild) = .ok [.negInf, .negInf, .fin 1, .negInf] := rfl
+
+/-! ## value of the n-th member (storage order), of the first member -/
+
+theorem C10_nth_def {α} (p : Pop) (k : Nat) (a : List α) (d : α) (hlen : a.length = p.ms.length)
+    (hne : p.ms ≠ []) (hg : ∀ m ∈ p.ms, m.group < p.n) :
+    (∃ r, valueNth p k a d = .ok r ∧ r.length = p.n ∧
+      ∀ g, g < p.n → r[g]? = some ((valuesOf p none g a)[k]?.getD d)) ∧
+    valueFromFirst p a d = valueNth p 0 a d := by
+  have h := range_map_spec p.n (fun g => (valuesOf p none g a)[k]?.getD d)
+  exact ⟨⟨_, valueNth_eq p k a d hlen hne hg, h.1, h.2⟩, rfl⟩
+
+example : valueNth exPop 2 exVals (-7) = .ok [-5, -7, -7, -7] ∧
+    valueFromFirst exPop exVals 0 = .ok [3, 0, -1, 0] := ⟨rfl, rfl⟩
+
+/-! ## value of the member holding a unique role -/
+
+theorem C10_from_role_def {α} (p : Pop) (a : List α) (r : Role) (d : α) (hmax : r.max = some 1)
+    (hlen : a.length = p.ms.length) (hg : ∀ m ∈ p.ms, m.group < p.n)
+    (hu : ∀ g, g < p.n → (valuesOf p (some r) g a).length ≤ 1) :
+    ∃ res, valueFromPerson p a r d = .ok res ∧ res.length = p.n ∧
+      ∀ g, g < p.n → res[g]? = some ((valuesOf p (some r) g a).head?.getD d) := by
+  have h := range_map_spec p.n (fun g => (valuesOf p (some r) g a).head?.getD d)
+  exact ⟨_, valueFromPerson_eq p a r d hmax hlen hg hu, h.1, h.2⟩
+
+/-- a role that is not declared unique is refused -/
+theorem C10_from_role_refused {α} (p : Pop) (a : List α) (r : Role) (d : α) (hmax : r.max ≠ some 1) :
+    ∃ e, valueFromPerson p a r d = .error e := by
+  unfold valueFromPerson valueFromPersonWith
+  rw [if_pos hmax]
+  exact ⟨_, rfl⟩
+
+example : exRef.max = some 1 ∧ (∀ g, g < exPop.n → (valuesOf exPop (some exRef) g exVals).length ≤ 1) ∧
+    valueFromPerson exPop exVals exRef 0 = .ok [4, 0, 0, 0] := ⟨rfl, by decide, rfl⟩
+
+/-! ## the order `numpy.argsort` gives to the members of one group does not matter
+
+`numpy.argsort` (introsort / SIMD sort) is not stable; the model's `orderedMap` is a stable sort.
+For every other permutation that sorts the persons by group the two operations that read the
+map return the same arrays (they select at most one person per group). -/
+
+theorem C10_members_map_irrelevant {α} (p : Pop) (mp : List Nat) (hmp : SortsByGroup p.ids mp)
+    (a : List α) (d : α) :
+    (∀ k, valueNthWith p mp k a d = valueNth p k a d) ∧
+    (∀ r : Role, a.length = p.ms.length → (∀ m ∈ p.ms, m.group < p.n) →
+      (∀ g, g < p.n → (valuesOf p (some r) g a).length ≤ 1) →
+      valueFromPersonWith p mp a r d = valueFromPerson p a r d) :=
+  ⟨fun k => valueNthWith_eq p mp hmp k a d,
+   fun r hlen hg hu => valueFromPersonWith_eq p mp hmp a r d hlen hu hg⟩
+
+/-- an unstable but sorting map on the example population (members of group 0 in the order
+4, 0, 2): same result -/
+example : SortsByGroup exPop.ids [4, 0, 2, 3, 1] ∧
+    valueNthWith exPop [4, 0, 2, 3, 1] 1 exVals 0 = valueNth exPop 1 exVals 0 :=
+  ⟨⟨by decide, by decide⟩, rfl⟩
+
+/-! ## projection of a group-level array onto persons -/
+
+theorem C10_project_def {α} (p : Pop) (x : List α) (zero : α) (role : Option Role)
+    (hx : x.length = p.n) (hg : ∀ m ∈ p.ms, m.group < p.n) :
+    ∃ r, project p x zero role = .ok r ∧ r.length = p.ms.length ∧
+      ∀ i (hi : i < p.ms.length),
+        r[i]? = some (if roleOk role p.ms[i] then x.getD p.ms[i].group zero else zero) ∧
+        x[p.ms[i].group]? ≠ none := by
+  refine ⟨_, project_eq p x zero role hx hg, by simp, fun i hi => ⟨?_, ?_⟩⟩
+  · rw [List.getElem?_map, List.getElem?_eq_getElem hi]; rfl
+  · have := hg p.ms[i] (List.getElem_mem hi)
+    rw [List.getElem?_eq_getElem (by omega)]
+    simp
+
+example : project exPop [10, 20, 30, 40] (0 : Int) none = .ok [10, 30, 10, 30, 10] ∧
+    project exPop [10, 20, 30, 40] (0 : Int) (some exChild) = .ok [0, 30, 0, 30, 0] := ⟨rfl, rfl⟩
+
+/-! ## member positions -/
+
+theorem C10_positions_def (p : Pop) (hne : p.ms ≠ []) :
+    ∃ pos, membersPosition p.ids = .ok pos ∧ pos.length = p.ms.length ∧
+      ∀ i (hi : i < p.ms.length),
+        pos[i]? = some ((p.ms.take i).filter fun m => m.group == p.ms[i].group).length := by
+  have hidne : p.ids ≠ [] := by simpa [Pop.ids] using hne
+  have hidl : p.ids.length = p.ms.length := by simp [Pop.ids]
+  refine ⟨_, membersPosition_eq _ hidne, by simp [hidl], fun i hi => ?_⟩
+  rw [List.getElem?_map, List.getElem?_range (by omega)]
+  simp only [Option.map_some, Option.some.injEq, posOf]
+  have h1 : p.ids.getD i 0 = p.ms[i].group := by
+    simp [Pop.ids, List.getD_eq_getElem?_getD, List.getElem?_eq_getElem hi]
+  rw [h1, List.count_eq_length_filter]
+  simp [Pop.ids, ← List.map_take, List.filter_map, Function.comp_def]
+
+example : membersPosition exPop.ids = .ok [0, 0, 1, 1, 2] := rfl
+
+/-! ## ranks within a group -/
+
+/-- the persons of group `g` that satisfy the condition, by index, in storage order -/
+def rankedIn (p : Pop) (cond : List Bool) (g : Nat) : List Nat :=
+  (List.range p.ms.length).filter fun i => (p.ms.getD i default).group == g && cond.getD i false
+
+theorem C10_rank_perm (p : Pop) (crit : List Int) (cond : List Bool)
+    (hc : crit.length = p.ms.length) (hb : cond.length = p.ms.length) (hne : p.ms ≠ [])
+    (hg : ∀ m ∈ p.ms, m.group < p.n) :
+    ∃ r, getRank p crit cond = .ok r ∧ r.length = p.ms.length ∧
+      -- -1 outside the condition
+      (∀ i, i < p.ms.length → cond.getD i false = false → r[i]? = some (-1)) ∧
+      -- within a group, a permutation of 0 .. k-1
+      (∀ g, ((rankedIn p cond g).map fun i => r.getD i 0).Perm
+              ((List.range (rankedIn p cond g).length).map Int.ofNat)) ∧
+      -- monotone in the criterion
+      (∀ i j, i < p.ms.length → j < p.ms.length →
+        (p.ms.getD i default).group = (p.ms.getD j default).group →
+        cond.getD i false = true → cond.getD j false = true →
+        crit.getD i 0 < crit.getD j 0 → r.getD i 0 < r.getD j 0) := by
+  have hidl : p.ids.length = p.ms.length := by simp [Pop.ids]
+  have hidg : ∀ i, p.ids.getD i 0 = (p.ms.getD i default).group := fun i =>
+    getD_map' p.ms (·.group) i default
+  have hr : ∀ i, i < p.ms.length →
+      ((List.range p.ms.length).map fun i =>
+        if cond.getD i false then (rankOf p (filteredCrit crit cond) i : Int) else -1).getD i 0
+      = if cond.getD i false then (rankOf p (filteredCrit crit cond) i : Int) else -1 := by
+    intro i hi
+    rw [List.getD_eq_getElem?_getD, List.getElem?_map, List.getElem?_range hi]
+    rfl
+  refine ⟨_, getRank_eq p crit cond hc hb hne hg, by simp, ?_, ?_, ?_⟩
+  · intro i hi hci
+    rw [List.getElem?_map, List.getElem?_range hi]
+    simp only [Option.map_some, hci]
+    rfl
+  · intro g
+    have hset : rankedIn p cond g = (membersIdx p.ids g).filter (fun i => cond.getD i false) := by
+      unfold rankedIn membersIdx
+      rw [List.filter_filter, hidl]
+      apply List.filter_congr
+      intro i _
+      rw [hidg, Bool.and_comm]
+    have hperm := (rank_perm p crit cond hc hb g).map Int.ofNat
+    rw [← hset, List.map_map] at hperm
+    have hmap : (rankedIn p cond g).map (fun i =>
+        ((List.range p.ms.length).map fun i =>
+          if cond.getD i false then (rankOf p (filteredCrit crit cond) i : Int) else -1).getD i 0)
+        = (rankedIn p cond g).map (Int.ofNat ∘ rankOf p (filteredCrit crit cond)) := by
+      apply List.map_congr_left
+      intro i hi
+      have hi' := List.mem_filter.mp hi
+      have hci : cond.getD i false = true := by
+        have := hi'.2; simp only [Bool.and_eq_true] at this; exact this.2
+      rw [hr i (List.mem_range.mp hi'.1), hci]
+      rfl
+    rw [hmap]
+    exact hperm
+  · intro i j hi hj hgrp hci hcj hlt
+    rw [hr i hi, hr j hj, hci, hcj]
+    simp only [if_true]
+    have := rank_mono p crit cond hc hb i j hi hj (by rw [hidg, hidg]; exact hgrp) hci hcj hlt
+    exact Int.ofNat_lt.mpr this
+
+example : getRank exPop exVals [true, true, true, true, true] = .ok [1, 0, 2, 1, 0] ∧
+    getRank exPop exVals exBools = .ok [0, -1, 1, 0, -1] ∧
+    rankedIn exPop exBools 0 = [0, 2] := ⟨rfl, rfl, rfl⟩
+
+/-! ## chained projections -/
+
+theorem C10_chain_compose {α} (p : Pop) (z : α) (hg : ∀ m ∈ p.ms, m.group < p.n) :
+    -- (a) bubbling a result up a chain of projectors is the composition of their transforms
+    (∀ (ps qs : List Proj) (x : List α),
+      bubbleUp p z (ps ++ qs) x
+        = match bubbleUp p z ps x with
+          | .error e => .error e
+          | .ok y => bubbleUp p z qs y) ∧
+    (∀ (start : Level) (ss : List Shortcut) (method : Level → Except String (List α)) ps lvl r,
+      resolveChain start ss = .ok (ps, lvl) → method lvl = .ok r →
+      chainCall p z start ss method = bubbleUp p z ps.reverse r) ∧
+    -- (b) person.group.<aggregate>: every person receives the value of the group it belongs to
+    (∀ x : List α, x.length = p.n →
+      bubbleUp p z [.toPerson] x = .ok (p.ms.map fun m => x.getD m.group z)) ∧
+    -- (c) group.first_person.group.<aggregate>: the group's own value, the default if no member
+    (∀ x : List α, x.length = p.n → p.ms ≠ [] →
+      bubbleUp p z [.toPerson, .firstPerson] x
+        = .ok ((List.range p.n).map fun g =>
+            if (p.ms.any fun m => m.group == g) then x.getD g z else z)) ∧
+    -- (d) group.<unique role>.group.<aggregate>: the group's own value if the role is held
+    (∀ (r : Role) (x : List α), x.length = p.n → r.max = some 1 →
+      (∀ g, g < p.n → (p.ms.filter fun m => m.group == g && r.holds m).length ≤ 1) →
+      bubbleUp p z [.toPerson, .uniqueRole r] x
+        = .ok ((List.range p.n).map fun g =>
+            if (p.ms.any fun m => m.group == g && r.holds m) then x.getD g z else z)) ∧
+    -- (e) person.group.first_person.<person array>: the value of the first member of my group
+    (∀ y : List α, y.length = p.ms.length → p.ms ≠ [] →
+      bubbleUp p z [.firstPerson, .toPerson] y
+        = .ok (p.ms.map fun m => (valuesOf p none m.group y)[0]?.getD z)) := by
+  refine ⟨bubbleUp_append p z, ?_, ?_, ?_, ?_, ?_⟩
+  · intro start ss method ps lvl r h1 h2
+    simp only [chainCall, h1, h2]
+  · intro x hx
+    simp only [bubbleUp, transform_toPerson p z x hx hg]
+  · intro x hx hne
+    simp only [bubbleUp, transform_toPerson p z x hx hg]
+    rw [transform_firstPerson p z _ (by simp) hne hg]
+    simp only
+    congr 1
+    apply List.map_congr_left
+    intro g _
+    have := head?_broadcast p none g x z
+    simp only [roleOk, Bool.and_true] at this
+    rw [← this, List.head?_eq_getElem?]
+  · intro r x hx hmax hu
+    simp only [bubbleUp, transform_toPerson p z x hx hg]
+    rw [transform_uniqueRole p z r _ hmax (by simp) hg (by
+      intro g hgn
+      rw [valuesOf_ms_map, List.length_map]
+      exact hu g hgn)]
+    simp only
+    congr 1
+    apply List.map_congr_left
+    intro g _
+    exact head?_broadcast p (some r) g x z
+  · intro y hy hne
+    simp only [bubbleUp, transform_firstPerson p z y hy hne hg]
+    rw [transform_toPerson p z _ (by simp) hg]
+    simp only
+    congr 1
+    apply List.map_congr_left
+    intro m hm
+    have := hg m hm
+    simp [List.getD_eq_getElem?_getD, this]
+
+example : chainCall exPop 0 .person [.entity] (fun _ => groupSum exPop exVals none) = .ok [2, 0, 2, 0, 2] ∧
+    chainCall exPop 0 .group [.firstPerson, .entity] (fun _ => groupSum exPop exVals none) = .ok [2, 0, 0, 0] ∧
+    chainCall exPop 0 .group [.role exRef, .entity] (fun _ => groupSum exPop exVals none) = .ok [2, 0, 0, 0] :=
+  ⟨rfl, rfl, rfl⟩
+
+/-! ## one element per group of the simulation, groups without any member included -/
+
+theorem C10_length (p : Pop) (a : List Int) (b : List Bool) (role : Option Role) (r1 : Role) (k : Nat)
+    (d : Int) (ha : a.length = p.ms.length) (hb : b.length = p.ms.length) (hne : p.ms ≠ [])
+    (hg : ∀ m ∈ p.ms, m.group < p.n) (hmax : r1.max = some 1)
+    (hu : ∀ g, g < p.n → (valuesOf p (some r1) g a).length ≤ 1) :
+    (∃ r, groupSum p a role = .ok r ∧ r.length = p.n) ∧
+    (∃ r, nbPersons p role = .ok r ∧ r.length = p.n) ∧
+    (∃ r, groupAny p b role = .ok r ∧ r.length = p.n) ∧
+    (∃ r, groupAll p b role = .ok r ∧ r.length = p.n) ∧
+    (∃ r, groupMin p a role = .ok r ∧ r.length = p.n) ∧
+    (∃ r, groupMax p a role = .ok r ∧ r.length = p.n) ∧
+    (∃ r, valueNth p k a d = .ok r ∧ r.length = p.n) ∧
+    (∃ r, valueFromFirst p a d = .ok r ∧ r.length = p.n) ∧
+    (∃ r, valueFromPerson p a r1 d = .ok r ∧ r.length = p.n) := by
+  obtain ⟨r, h1, h2, _⟩ := C10_sum_def p a role ha hg
+  obtain ⟨r', h1', h2', _⟩ := C10_count_def p role hg
+  obtain ⟨r3, h3, h3', _⟩ := C10_any_def p b role hb hg
+  obtain ⟨r4, h4, h4', _⟩ := C10_all_def p b role hb hne hg
+  obtain ⟨r5, h5, h5', _⟩ := C10_min_def p a role ha hne hg
+  obtain ⟨r6, h6, h6', _⟩ := C10_max_def p a role ha hne hg
+  obtain ⟨⟨r7, h7, h7', _⟩, _⟩ := C10_nth_def p k a d ha hne hg
+  obtain ⟨⟨r8, h8, h8', _⟩, h8e⟩ := C10_nth_def p 0 a d ha hne hg
+  obtain ⟨r9, h9, h9', _⟩ := C10_from_role_def p a r1 d hmax ha hg hu
+  exact ⟨⟨r, h1, h2⟩, ⟨r', h1', h2'⟩, ⟨r3, h3, h3'⟩, ⟨r4, h4, h4'⟩, ⟨r5, h5, h5'⟩, ⟨r6, h6, h6'⟩,
+    ⟨r7, h7, h7'⟩, ⟨r8, h8e ▸ h8, h8'⟩, ⟨r9, h9, h9'⟩⟩
+
+/-- a simulation whose last two groups have no member: every result still has four elements -/
+example : (groupSum ⟨4, [⟨1, 0⟩, ⟨1, 2⟩, ⟨0, 3⟩]⟩ [5, 6, 7] none = .ok [7, 11, 0, 0]) ∧
+    (nbPersons ⟨4, [⟨1, 0⟩, ⟨1, 2⟩, ⟨0, 3⟩]⟩ none = .ok [1, 2, 0, 0]) ∧
+    (groupMin ⟨4, [⟨1, 0⟩, ⟨1, 2⟩, ⟨0, 3⟩]⟩ [5, 6, 7] none = .ok [.fin 7, .fin 5, .posInf, .posInf]) ∧
+    (valueFromFirst ⟨4, [⟨1, 0⟩, ⟨1, 2⟩, ⟨0, 3⟩]⟩ [5, 6, 7] (0 : Int) = .ok [7, 5, 0, 0]) :=
+  ⟨rfl, rfl, rfl, rfl⟩
+
 end OFCore
